@@ -545,7 +545,7 @@ func c06Scenarios(thorough bool) []*explore.Scenario {
 }
 
 func TestVerifC06(t *testing.T) {
-	explore.Main(t, "C06", c06Scenarios(strings.Contains(strings.ToLower(getenvTier()), "thorough")))
+	explore.Main(t, "C06", c06Scenarios(strings.Contains(strings.ToLower(rigGetenvTier()), "thorough")))
 }
 
 func TestVerifC06Probe(t *testing.T) {
